@@ -216,3 +216,53 @@ pub fn c11_prng_new_field_continuity() {
     kani::cover!(v0 < P16 && idx % 2 == 1);
     core::mem::forget(q);
 }
+
+/// Stream for the unbuffered sampler with up to four rejections (thorough tier).
+struct Stream5 {
+    reads: usize,
+    log: [u8; 5],
+}
+
+impl TryRng for Stream5 {
+    type Error = Infallible;
+    fn try_next_u32(&mut self) -> Result<u32, Infallible> {
+        Ok(kani::any())
+    }
+    fn try_next_u64(&mut self) -> Result<u64, Infallible> {
+        Ok(kani::any())
+    }
+    fn try_fill_bytes(&mut self, dst: &mut [u8]) -> Result<(), Infallible> {
+        let b: u8 = kani::any();
+        if self.reads >= 4 {
+            kani::assume((b & MASK8) < P8);
+        }
+        assert!(dst.len() == 1);
+        dst[0] = b;
+        self.log[self.reads] = b;
+        self.reads += 1;
+        Ok(())
+    }
+}
+
+//@ harness: c11_generate_random_deep
+//@ prop: C11
+//@ tier: thorough
+//@ cost: 120
+//@ timeout: 1800
+//@ funcs: FieldElementExt::generate_random (GF(17))
+//@ bounds: every byte stream with at most four rejected chunks
+//@ asserts: every chunk before the returned one is rejected by the specification ((c & mask) >= p); the returned element is the masked last chunk
+#[kani::proof]
+#[kani::unwind(7)]
+pub fn c11_generate_random_deep() {
+    let mut s = Stream5 { reads: 0, log: [0; 5] };
+    let got = Field8::generate_random(&mut s);
+    assert!(s.reads >= 1 && s.reads <= 5);
+    assert!(got == spec8(s.log[s.reads - 1]).unwrap());
+    let mut k = 0;
+    while k + 1 < s.reads {
+        assert!(spec8(s.log[k]).is_none());
+        k += 1;
+    }
+    kani::cover!(s.reads == 5);
+}
